@@ -166,14 +166,40 @@ func (ex *Explorer) Run() {
 				ex.mu.Unlock()
 				return
 			}
-			defer s.Close()
 			w := &Worker{id: id, ex: ex, vm: ex.newVM(), solver: s}
+			defer func() { w.solver.Close() }()
 			for {
 				prefix, ok := ex.pop()
 				if !ok {
 					break
 				}
-				w.runPath(prefix, nil)
+				_, status, detail := w.runPath(prefix, nil)
+				if status == "solver-error" {
+					// a solver process that answered with an error (sporadic: e.g. z3's
+					// "push canceled" after a timeout) is replaced and the path re-run once;
+					// a second error stays inconclusive
+					if s2, err := solver.Start(ex.Cfg.Solver, ex.Cfg.TimeoutMs); err == nil {
+						w.solver.Close()
+						s2.Queries, s2.NSat, s2.NUnsat, s2.NUnknown, s2.NError, s2.Time = s.Queries, s.NSat, s.NUnsat, s.NUnknown, s.NError, s.Time
+						w.solver, s = s2, s2
+						ex.mu.Lock()
+						ex.Paths["solver-error"]--
+						if ex.Paths["solver-error"] == 0 {
+							delete(ex.Paths, "solver-error")
+						}
+						for k := range ex.PathDetails {
+							if strings.HasPrefix(k, "solver-error: ") && strings.Contains(k, detail[:min(len(detail), 40)]) {
+								ex.PathDetails[k]--
+								if ex.PathDetails[k] <= 0 {
+									delete(ex.PathDetails, k)
+								}
+								break
+							}
+						}
+						ex.mu.Unlock()
+						w.runPath(prefix, nil)
+					}
+				}
 				ex.done()
 				if time.Now().After(ex.Deadline) {
 					ex.mu.Lock()
